@@ -94,10 +94,12 @@ class Outcome:
 
     @property
     def exit_code(self) -> int:
-        if self.errors:
-            return 2
+        # a decided violation is reported as such even when another rule of the
+        # same run could not be decided (both are printed)
         if self.violations:
             return 1
+        if self.errors:
+            return 2
         return 0
 
 
